@@ -292,11 +292,29 @@ func checkLoad(c *pbt.Ctx, cs LoadCase) {
 			}
 		case tm.MAP:
 			if n.KT == tm.STRING {
-				c.Protect("", func() {
-					if r := cur.GetByStr("no such key \x00", o); r != nil && !r.IsError() && !r.IsEmpty() {
-						c.Failf("absent-found", "GetByStr at %v returns a node for an absent key", p)
+				cands := []string{"no such key \x00", "", "k", "\x00"}
+				if len(n.Keys) > 0 {
+					cands = append(cands, string(n.Keys[rnd.n(len(n.Keys))].S)+"x")
+				}
+				for _, ks := range cands {
+					absent := true
+					for _, k := range n.Keys {
+						if string(k.S) == ks {
+							absent = false
+						}
 					}
-				})
+					if !absent {
+						continue
+					}
+					ks := ks
+					c.Protect("", func() {
+						if r := cur.GetByStr(ks, o); r != nil && !r.IsError() && !r.IsEmpty() {
+							c.Failf("absent-found", "GetByStr(%q) at %v returns a node for an absent key", ks, p)
+						} else if r != nil && r.IsEmpty() && !r.IsError() && r.Path.Type() == 0 {
+							c.Failf("absent-found", "GetByStr(%q) at %v returns an unused slot of the children table (no path, no node) for an absent key instead of nil", ks, p)
+						}
+					})
+				}
 			} else if n.KT.IsInt() {
 				for _, ki := range []int{0, 1, -1, 7, 1 << 40, rnd.n(1000)} {
 					absent := true
@@ -512,6 +530,11 @@ func checkEdits(c *pbt.Ctx, cs EditCase) {
 						return
 					}
 				}
+				if s.Kind != "f" && r != nil && !r.IsError() && r.Path.Type() == 0 {
+					if c.Fail(reg, "absent-found", "edit %d: lookup of never-stored %s returns an unused slot of the children table (no path, no node) instead of nil", i, key) {
+						return
+					}
+				}
 			case e.enc == nil:
 				if r != nil && !r.IsEmpty() {
 					if c.Fail(reg, "cleared-found", "edit %d: lookup of cleared %s returns a non-empty node", i, key) {
@@ -621,6 +644,9 @@ var EditProp = pbt.Register(pbt.Prop[EditCase]{
 					k := &tm.Value{K: kt}
 					if kt == tm.STRING {
 						k.S = []byte(fmt.Sprintf("k%d", rapid.IntRange(0, 200).Draw(t, "ks")))
+						if rapid.IntRange(0, 7).Draw(t, "emptyKey") == 0 {
+							k.S = []byte{}
+						}
 					} else {
 						k.I = int64(rapid.IntRange(0, 300).Draw(t, "ki"))
 						if rapid.IntRange(0, 5).Draw(t, "kneg") == 0 && kt != tm.I16 {
@@ -648,6 +674,16 @@ var EditProp = pbt.Register(pbt.Prop[EditCase]{
 		for _, k := range cs.V.Keys {
 			known = append(known, jStep{Kind: "k", Key: k})
 		}
+		// the empty / zero key: the key an unused slot of a children table could be mistaken for
+		zeroKey := func() jStep {
+			if cs.V.KT == tm.STRING {
+				return jStep{Kind: "k", Key: &tm.Value{K: tm.STRING, S: []byte{}}}
+			}
+			return jStep{Kind: "k", Key: &tm.Value{K: cs.V.KT}}
+		}
+		if cs.V.K == tm.MAP && rapid.Bool().Draw(t, "zeroKeyFirst") {
+			cs.Edits = append(cs.Edits, EditOp{Kind: "get", Step: zeroKey()})
+		}
 		ne := rapid.IntRange(1, 14).Draw(t, "nEdits")
 		for i := 0; i < ne; i++ {
 			var st jStep
@@ -674,6 +710,9 @@ var EditProp = pbt.Register(pbt.Prop[EditCase]{
 				known = append(known, st)
 			default:
 				cs.Edits = append(cs.Edits, EditOp{Kind: "get", Step: st})
+			}
+			if cs.V.K == tm.MAP && rapid.IntRange(0, 9).Draw(t, "zeroKey") == 0 {
+				cs.Edits = append(cs.Edits, EditOp{Kind: "set", Step: zeroKey(), New: scal()}, EditOp{Kind: "get", Step: zeroKey()})
 			}
 		}
 		return cs
